@@ -196,6 +196,10 @@ def point_alphabet(cname, observe=None):
     ]
     A += [("W%d" % i, g(m), "generic") for i, m in enumerate(ms)]
     A += [("W0+W1", ("sum", g(ms[0]), g(ms[1])), "generic")]
+    if cname in H.WEIER:
+        y0 = R.sqrt_mod(c.b % c.p, c.p)         # the point with x = 0 (not the neutral element, whose xy is reported as (0, 0))
+        if y0 is not None:
+            A.append(("(0,sqrt(b))", xy((0, y0)), "generic"))
     if cname in H.EDW:
         T = H.torsion_generator(cname)
         h = c.cofactor
